@@ -68,6 +68,8 @@ class CNode(fm.TimeComponent):
         for n, mode in self.ins:
             if mode == "decl":
                 self.inputs.add(name=n, info=self.info_in())
+            elif mode == "decl_tag":  # declared, with extra metadata of its own that the producer does not know
+                self.inputs.add(name=n, info=fm.Info(time=self.time, grid=fm.NoGrid(), units=None, owner=self.name, _FillValue=-float(ord(self.name[0]))))
             else:
                 self.inputs.add(name=n)
                 if mode.startswith("from_out:"):
@@ -160,7 +162,7 @@ def fixpoint(specs, links):
                     add(("data", X, o))
             for i, mode in s[1]:
                 Y, yo = src[(X, i)]
-                have_own = mode in ("decl", "arg") or (mode.startswith("from_out:") and ("outComplete", X, mode.split(":")[1]) in F) or (mode.startswith("after_pull:") and ("pulled", X, mode.split(":")[1]) in F)
+                have_own = mode in ("decl", "arg", "decl_tag") or (mode.startswith("from_out:") and ("outComplete", X, mode.split(":")[1]) in F) or (mode.startswith("after_pull:") and ("pulled", X, mode.split(":")[1]) in F)
                 if have_own and ("outPushed", Y, yo) in F:
                     add(("inInfo", X, i))
                 if ("inInfo", X, i) in F and ("data", Y, yo) in F:
